@@ -6,10 +6,28 @@ from tools.vlib import *
 PID = "C07"
 READY = False
 MANIFEST = {
-    "level_text": "TODO",
-    "level_note": "TODO",
-    "technique": "Lean 4 invariant/refinement proof (induction over histories, bit-level lemma for the bucket index) + "
-                 "model/implementation differential correspondence with Lean monitor",
+    "level_text": "Lean 4 theorems about a hand-written model of KademliaTable's routing half (bucket_index_for, upsert_bucket, "
+                  "register_peer, add_contact's upsert, sweep_buckets, closest_peers), for every local id, every finite sequence of "
+                  "registrations / provider additions / sweeps / queries / clock moves over arbitrary 32-byte ids, with no bound on "
+                  "sizes or time: the byte-wise countl_zero loop returns exactly the highest bit in which two ids differ (and nothing "
+                  "for the local id); after any history the local id is not held, no bucket exceeds 16, every contact sits in the "
+                  "bucket of its highest differing bit, ids are unique over the whole table and every held contact carries the "
+                  "address/expiry of the last registration of its id (exactly one entry right after a (re-)registration); every "
+                  "closest-peer query returns min(k,n) unexpired held contacts in strictly increasing 256-bit XOR distance with "
+                  "everything left out strictly farther; that specification admits at most one answer, and any sorted permutation "
+                  "of the candidates equals the model's (std::sort's instability cannot matter). The model is tied to the code by "
+                  "regenerated constants (kBucketSize, kIdBits) and by a differential run of the real KademliaTable (private "
+                  "buckets_ read, virtual clock) against the compiled Lean model, with the Lean specification (decide of the same "
+                  "predicates the theorems state) judging every bucket dump and query answer the implementation produces.",
+    "level_note": "Trusted: Lean kernel; the hand transcription of the C++ into Model/Routing.lean (checked only by the differential "
+                  "run, deque order and result order compared verbatim); std::deque / std::sort / std::find_if / std::remove_if "
+                  "semantics (std::sort modelled as List.mergeSort); the harness and vlib. Modelled, not verified: time_point "
+                  "arithmetic as unbounded Int (no int64 overflow for the generated TTLs), ids as lists of byte-valued Nat with the "
+                  "32-byte length as a theorem hypothesis, the provider-directory half of add_contact (property C06). 'Prune expired "
+                  "before LRU eviction' and 'a sweep drops expired entries' are model behaviour checked by correspondence only: the "
+                  "property text does not fix them, so a change there is reported as a broken correspondence, not as a failing input.",
+    "technique": "Lean 4 invariant proof by induction over histories + bit-level lemma (Nat.log2/testBit) for the bucket index + "
+                 "uniqueness of the sorted answer; model/implementation differential correspondence with Lean monitor",
 }
 SECOND = 1_000_000_000
 VSTART = 1_000_000_000_000      # verif::kVclockStart
@@ -392,7 +410,7 @@ def spec() -> Spec:
         generate=generate,
         extract=extract,
         nontrivial=nontrivial,
-        budget={"quick": 2000, "thorough": 40000},
+        budget={"quick": 2000, "thorough": 20000},
         rule="random histories of init/reg/add/adv/sweep/buckets/closest against the real KademliaTable under the virtual clock: "
              "random, all-zero and all-one local ids; contacts aimed at chosen bucket indices (0,1,7,8,...,254,255 and random: ids "
              "sharing 0..255-bit prefixes with the local id); 15/16/17/20/33 ids in one bucket; refreshes with new address/TTL "
